@@ -92,20 +92,20 @@ NOT_APPLICABLE = {
 }
 # sentences appended to the claim text: obligations added after the third round of seeded changes (DESIGN.md section 9.1)
 EXTRA = {
- "C01": " Also: every same-face shortcut of the neighbour functions holds only for coordinates inside [0, MaxSize) (R-SAMEFACE: guards expanded to linear comparisons), and the face-wrap helper clamps its coordinates before shifting (no 32-bit overflow).",
- "C02": " Also: the stable determinant's error bound multiplies the lengths of exactly the two vectors whose cross product is taken, on every path; whatever is compared with maxDeterminantError is a plain (a x b).c; CompareDistances uses the sin^2 comparison only on the side of 90 degrees where it is monotone, with the matching sign. Thorough tier: the perturbation sequence is re-derived with computer algebra (sympy) and compared with the source (R-SOSDERIVE).",
+ "C01": " Also: twin functions (ChildBegin/ChildEnd, RangeMin/RangeMax, Next/Prev, NextWrap/PrevWrap) are mirror images under their substitution (R-TWIN); both point-to-(u,v) conversions use the one projection kernel; every same-face shortcut of the neighbour functions holds only for coordinates inside [0, MaxSize) (R-SAMEFACE: guards expanded to linear comparisons), and the face-wrap helper clamps its coordinates before shifting (no 32-bit overflow).",
+ "C02": " Also: the incomplete stages (triageSign, stableSign, exactSign, expensiveSign) are called only by the staged evaluators; every sin^2 triage runs only after the cosine triage returned 0; no comparison compares a value with itself next to sibling comparisons; the stable determinant's error bound multiplies the lengths of exactly the two vectors whose cross product is taken, on every path; whatever is compared with maxDeterminantError is a plain (a x b).c; CompareDistances uses the sin^2 comparison only on the side of 90 degrees where it is monotone, with the matching sign. Thorough tier: the perturbation sequence is re-derived with computer algebra (sympy) and compared with the source (R-SOSDERIVE).",
  "C03": " Also: the two-argument wrappers of the incremental crosser leave the chain at their second argument; the cached cross product compared with maxDeterminantError is only ever a plain a x b.",
  "C04": " Also: parity toggles never use CrossingSign(...)==Cross directly (MaybeCross is resolved first), internal ContainsPointQuery constructions use the semi-open model, Polygon.Invert keeps every loop once and only shifts depths by one, and functions that accumulate over all loops of a polygon have no early exit (R-ALLLOOPS).",
- "C05": " Also: the MaxCells merge loop of normalizeCovering replaces cells by an ancestor only behind a comparison with MinLevel; the indexed containment evaluators used by ContainsCell/IntersectsCell toggle parity only with vertex-resolving crossing tests.",
- "C06": " Also: Polygon.Edge and Polygon.ChainPosition contain the same edge-to-loop search (alpha-renamed syntax trees; only a leaf difference is reported), Polygon.Edge's result is ChainEdge's expression, and ShapeIndex.Reset clears every pending-update field.",
+ "C05": " Also: every CellUnionBound implementation returns storage allocated by the call (the coverer normalises it in place); no condition is tested twice in a row (R-DUP); the MaxCells merge loop of normalizeCovering replaces cells by an ancestor only behind a comparison with MinLevel; the indexed containment evaluators used by ContainsCell/IntersectsCell toggle parity only with vertex-resolving crossing tests.",
+ "C06": " Also: clipUBound/clipVBound and splitUBound/splitVBound are mirror images (R-TWIN); getCellsForEdge visits every face segment; no && chain tests the same expression twice (R-DUP); Polygon.Edge and Polygon.ChainPosition contain the same edge-to-loop search (alpha-renamed syntax trees; only a leaf difference is reported), Polygon.Edge's result is ChainEdge's expression, and ShapeIndex.Reset clears every pending-update field.",
  "C07": " Also: the relation crosser restarts its edge chain exactly when the next edge id is not the previous one plus one.",
- "C08": " Also: chord angles are never combined with the built-in + or - outside s1 (R-UNITS, three named exceptions with reasons); each updateDistanceTo* of the ShapeIndex targets assigns the persistent sub-query options' distance limit on every path before the sub-query; the priority queue, which outlives the call, is left empty on every exit of the search.",
- "C09": " Also: fixed-length fields whose byte count is computed from the level have the same count in writer and reader for every level 0..30 and are wide enough (R-WIRECOUNT); the k-th receiver field written is the k-th receiver field read into (R-FIELDPAIR); Polygon.numVertices is only assigned its definition (R-DERIVED); the encoders visit every loop.",
- "C10": " Also: the edge normal whose length RectBounder.AddPoint tests against 1.91346e-15 is (A-B)x(A+B), the form that threshold was derived for; ConvexHullQuery.AddPolygon visits every loop.",
- "C13": " Also: the EdgeQuery priority queue (allocated once) is empty on every exit of the optimized search; the ShapeIndex targets give their persistent sub-query this call's limit on every path; Polygon.Invert only shifts depths.",
+ "C08": " Also: the closest-edge and furthest-edge targets agree method by method under the min/max substitution (R-TWIN, 30 pairs); a split cell's back-step children are tested whether or not the forward seek hit the end; chord angles are never combined with the built-in + or - outside s1 (R-UNITS, three named exceptions with reasons); each updateDistanceTo* of the ShapeIndex targets assigns the persistent sub-query options' distance limit on every path before the sub-query; the priority queue, which outlives the call, is left empty on every exit of the search.",
+ "C09": " Also: floats read from the stream are stored unchanged (R-RAWFLOAT); no package-level scratch storage is shared between encoders (R-GLOBAL); fixed-length fields whose byte count is computed from the level have the same count in writer and reader for every level 0..30 and are wide enough (R-WIRECOUNT); the k-th receiver field written is the k-th receiver field read into (R-FIELDPAIR); Polygon.numVertices is only assigned its definition (R-DERIVED); the encoders visit every loop.",
+ "C10": " Also: accumulated bounds are only ever updated from their previous value (R-ACCUM); the degenerate-normal branch of RectBounder.AddPoint assigns the full rectangle on the antipodal side; the edge normal whose length RectBounder.AddPoint tests against 1.91346e-15 is (A-B)x(A+B), the form that threshold was derived for; ConvexHullQuery.AddPolygon visits every loop.",
+ "C13": " Also: re-initialisers of a polygon's derived fields start each field from a history-independent value before reading it (R-REINIT); the EdgeQuery priority queue (allocated once) is empty on every exit of the optimized search; the ShapeIndex targets give their persistent sub-query this call's limit on every path; Polygon.Invert only shifts depths.",
  "C15": " Also (re-encoding a decoded value): Polygon.numVertices, which sizes the encoder's vertex buffer, is only ever assigned a sum of loop vertex counts.",
  "C18": " Also: Polygon.Invert shifts nesting depths by exactly one (hole/shell parity of deeper descendants), and Area/Centroid/initLoopProperties visit every loop.",
- "C19": " Also: endpoint arithmetic in Interval.Expanded (r1, s1) is reachable only past a test of the receiver's emptiness or length; s1.Interval.Expanded predicts full/empty results from the result's own length (length + 2*margin) with a conservative rounding allowance; chord angles are not combined with built-in arithmetic outside s1.",
+ "C19": " Also: ChordAngle.Expanded passes both sentinels through; rectangles assembled from two component results are returned only when both are non-empty; Rect.Lo/Hi are mirror images; endpoint arithmetic in Interval.Expanded (r1, s1) is reachable only past a test of the receiver's emptiness or length; s1.Interval.Expanded predicts full/empty results from the result's own length (length + 2*margin) with a conservative rounding allowance; chord angles are not combined with built-in arithmetic outside s1.",
 }
 
 PENDING = "check for this property is designed (DESIGN.md section 4) but not yet built in this revision; no claim is made"
@@ -124,7 +124,7 @@ def main():
                 "evidence_file": f"/verif/evidence/{p}.json",
                 "replay_cmd_template": f"/verif/bin/s2lint -prop {p} -tier thorough -v   # re-derives the obligations listed in {{path}}",
                 "engine": "s2lint",
-                "level_claimed": {"category": "other", "text": c["text"] + EXTRA.get(p, ""), "design_ref": c["design"] + ", section 9.1"},
+                "level_claimed": {"category": "other", "text": c["text"] + EXTRA.get(p, ""), "design_ref": c["design"] + ", sections 9.1-9.2"},
                 "level_note": c["note"],
                 "technique": c["technique"],
             })
